@@ -169,8 +169,9 @@ type FuncContract struct {
 }
 
 type GuardDecl struct {
-	Lock string
-	Tags []string
+	Lock    string
+	LockPkg string // import path of the package of a package-level mutex (map guards)
+	Tags    []string
 }
 
 type SpecFunc struct {
@@ -222,6 +223,7 @@ type Contracts struct {
 	Specs       map[string]*SpecFunc // by name (global namespace; also pkg.name)
 	Lemmas      []*Lemma
 	GhostFields map[string]*GhostField // "pkg.Type.$name"
+	GuardedMaps map[string]*GuardDecl // Go map type (as typeName prints it) -> package-level mutex
 	Guarded     map[string]*GuardDecl  // "pkg.Type.field" -> the lock field that guards it
 	TypeInvs    []*TypeInv
 	GlobalInvs  map[string][]*Clause // package -> facts about package-level variables that no function in scope assigns
@@ -1134,6 +1136,19 @@ func (C *Contracts) parseStatements(pkg, path string, stmts []rawLine) (err erro
 					tags = append(tags, strings.TrimSpace(t))
 				}
 				r = strings.TrimSpace(r[k+1:])
+			}
+			if strings.HasPrefix(r, "map ") {
+				// guarded[tags] map <Go type> by <package-level mutex>
+				k := strings.LastIndex(r, " by ")
+				if k < 0 {
+					return cerr(st, "expected: guarded[tags] map <type> by <package-level mutex>")
+				}
+				ty := strings.TrimSpace(r[len("map "):k])
+				if C.GuardedMaps == nil {
+					C.GuardedMaps = map[string]*GuardDecl{}
+				}
+				C.GuardedMaps[ty] = &GuardDecl{Lock: strings.TrimSpace(r[k+4:]), LockPkg: scopePkgs[pkg], Tags: tags}
+				break
 			}
 			f := strings.Fields(r)
 			if len(f) != 3 || f[1] != "by" || !strings.Contains(f[0], ".") {
